@@ -26,6 +26,16 @@ Observed(st) ==
     /\ ToSet(st.has) = Tags'
     /\ {<<st.meta[i][1], ToSet(st.meta[i][2])>> : i \in DOMAIN st.meta} = {<<h, meta'[h]>> : h \in DOMAIN meta'}
     /\ ToSet(st.metanone) = Stored' \ DOMAIN meta'
+    \* get_range(a..=b): all of a..b stored => exactly those headers in order, else an error
+    /\ \A i \in DOMAIN st.rng :
+          LET a == st.rng[i][1]  b == st.rng[i][2] IN
+          IF a >= 1 /\ (a..b) \subseteq Stored'
+          THEN st.rng[i][3] = 1 /\ st.rng[i][4] = [k \in 1..(b - a + 1) |-> hdr'[a + k - 1].id]
+          ELSE st.rng[i][3] = 0
+    \* get_range(..) = 1..=head: succeeds iff nothing is missing below the head
+    /\ IF Stored' # {} /\ (1..MaxOf(Stored')) \subseteq Stored'
+       THEN st.all[1] = 1 /\ st.all[2] = [k \in 1..MaxOf(Stored') |-> hdr'[k].id]
+       ELSE st.all[1] = 0
 
 \* Property layer for a failing insert: any applicable error kind is acceptable
 TInsert ==
